@@ -84,3 +84,16 @@ Theorem C07_unforced_served_from_storage : forall classes run f w id o tc v,
              (forall p e, dget p (w_store w) = Some e -> dget p (w_store w') = Some e).
 Proof. exact eval_load_touches_nothing. Qed.
 Print Assumptions C07_unforced_served_from_storage.
+
+(* reset_data between forcing and the next request does not un-force: the object keeps its mark (and holds no
+   value), so by C07_forced_runs_again the request executes run; store and run log are untouched *)
+Theorem C07_reset_keeps_forced : forall H wd run h c n id h' out j,
+  oid_of h c n = Some id -> id < List.length (w_states (h_world h)) ->
+  step H wd run h (OReset c n) = (h', out) ->
+  out = ok VNone /\
+  w_store (h_world h') = w_store (h_world h) /\ w_runlog (h_world h') = w_runlog (h_world h) /\
+  state_of (h_world h') j =
+  (if Nat.eqb j id then {| os_mem := None; os_forced := os_forced (state_of (h_world h) id) |}
+   else state_of (h_world h) j).
+Proof. exact reset_keeps_forced. Qed.
+Print Assumptions C07_reset_keeps_forced.
